@@ -87,7 +87,7 @@ Proof. exact build_item_unswaps. Qed.
 (* 3. write = header part (version, wrap) ; title lines (header_width) ; data part *)
 Theorem C12_write_factors : forall fmtv fmt_diff fmt_pi fstr fzero numeq (o : wopts) (m : mlas),
   write fmtv fmt_diff fmt_pi fstr fzero numeq o m =
-  match write_sections fmtv fmt_diff fstr fzero numeq (wo_version o) (wo_wrap o) m with
+  match write_sections fmtv fmt_diff fstr fzero numeq (wo_version o) (wo_wrap o) (col_fmt o 0%nat) m with
   | None => WErr WKeyError
   | Some hs =>
       match write_data fmtv fmt_pi fstr o hs with
@@ -100,18 +100,19 @@ Proof. exact write_factors. Qed.
 
 Theorem C12_header_independent_of_data_options :
   forall fmtv fmt_diff fmt_pi fstr fzero numeq (o1 o2 : wopts) (m : mlas) t1 m1 t2 m2,
-  wo_version o1 = wo_version o2 -> wo_wrap o1 = wo_wrap o2 ->
+  wo_version o1 = wo_version o2 -> wo_wrap o1 = wo_wrap o2 -> col_fmt o1 0%nat = col_fmt o2 0%nat ->
   write fmtv fmt_diff fmt_pi fstr fzero numeq o1 m = WOk t1 m1 ->
   write fmtv fmt_diff fmt_pi fstr fzero numeq o2 m = WOk t2 m2 ->
   exists hs d1 d2,
-    write_sections fmtv fmt_diff fstr fzero numeq (wo_version o1) (wo_wrap o1) m = Some hs /\
+    write_sections fmtv fmt_diff fstr fzero numeq (wo_version o1) (wo_wrap o1) (col_fmt o1 0%nat) m = Some hs /\
     t1 = join [ch_nl] (header_lines (wo_header_width o1) hs) ++ [ch_nl] ++ d1 /\
     t2 = join [ch_nl] (header_lines (wo_header_width o2) hs) ++ [ch_nl] ++ d2.
 Proof. exact header_independent_of_data_options. Qed.
 
 Theorem C12_header_text_independent :
   forall fmtv fmt_diff fmt_pi fstr fzero numeq (o1 o2 : wopts) (m : mlas) t1 m1 t2 m2,
-  wo_version o1 = wo_version o2 -> wo_wrap o1 = wo_wrap o2 -> wo_header_width o1 = wo_header_width o2 ->
+  wo_version o1 = wo_version o2 -> wo_wrap o1 = wo_wrap o2 -> col_fmt o1 0%nat = col_fmt o2 0%nat ->
+  wo_header_width o1 = wo_header_width o2 ->
   write fmtv fmt_diff fmt_pi fstr fzero numeq o1 m = WOk t1 m1 ->
   write fmtv fmt_diff fmt_pi fstr fzero numeq o2 m = WOk t2 m2 ->
   exists h d1 d2, t1 = h ++ [ch_nl] ++ d1 /\ t2 = h ++ [ch_nl] ++ d2.
@@ -119,15 +120,15 @@ Proof. exact header_text_independent. Qed.
 
 Theorem C12_state_independent_of_presentation :
   forall fmtv fmt_diff fmt_pi fstr fzero numeq (o1 o2 : wopts) (m : mlas) t1 m1 t2 m2,
-  wo_version o1 = wo_version o2 -> wo_wrap o1 = wo_wrap o2 ->
+  wo_version o1 = wo_version o2 -> wo_wrap o1 = wo_wrap o2 -> col_fmt o1 0%nat = col_fmt o2 0%nat ->
   write fmtv fmt_diff fmt_pi fstr fzero numeq o1 m = WOk t1 m1 ->
   write fmtv fmt_diff fmt_pi fstr fzero numeq o2 m = WOk t2 m2 ->
   m1 = m2.
 Proof. exact state_independent_of_presentation. Qed.
 
 (* the item lines are section_lines of the sections of the file after the call *)
-Theorem C12_written_lines : forall fmtv fmt_diff fstr fzero numeq ver wrapo m hs,
-  write_sections fmtv fmt_diff fstr fzero numeq ver wrapo m = Some hs ->
+Theorem C12_written_lines : forall fmtv fmt_diff fstr fzero numeq ver wrapo ifmt m hs,
+  write_sections fmtv fmt_diff fstr fzero numeq ver wrapo ifmt m = Some hs ->
   section_lines fstr (hs_version hs) (s2l "Version") (hs_vers_items hs) = Some (hs_lv hs) /\
   section_lines fstr (hs_version hs) (s2l "Well") (s_items (l_well (hs_las hs))) = Some (hs_lw hs) /\
   section_lines fstr (hs_version hs) (s2l "Curves") (s_items (l_curves (hs_las hs))) = Some (hs_lc hs) /\
